@@ -285,8 +285,20 @@ def evaluate_payload_template(input, context, template):
                 )
             template_string = args[0]
             args = args[1:]
+            """
+            Only {} is a placeholder, replaced by the arguments in order, and
+            \\{ and \\} are literal braces. The template must not be used as a
+            Python format string, as that would give it access to attributes
+            and items of the arguments.
+            """
             try:
-                return template_string.format(*args)
+                parts = re.split(r"(?<!\\)\{\}", template_string)
+                if len(parts) - 1 > len(args):
+                    raise IndexError("not enough arguments for the {} placeholders")
+                result = parts[0]
+                for arg, part in zip(args, parts[1:]):
+                    result += str(arg) + part
+                return result.replace("\\{", "{").replace("\\}", "}")
             except Exception as e:
                 raise IntrinsicFailure(
                     "States.Format failed with {}.".format(e)
